@@ -1,10 +1,8 @@
-//! Programmable stand-ins for zkryptium's three public hashing helpers (DESIGN.md §2.6, style A).
-//! They are faithful *abstractions*: same signatures, same error conditions, same result
-//! shapes; the values they return are chosen (programmed) by the harness.
+//! Stubs shared by all harnesses.  No mutable global state is used anywhere in the default build:
+//! Kani 0.68 / CBMC 6.11 report spurious invalid-pointer failures (and prune paths) after writes to
+//! some `static mut` items, so every harness input is passed explicitly.
 use crate::common::*;
 use elliptic_curve::hash2curve::ExpandMsg;
-use zkryptium::bbsplus::generators::Generators;
-use zkryptium::utils::message::bbsplus_message::BBSplusMessage;
 
 /// Stub for `alloc::fmt::format` (error paths build their messages with `format!`; formatting a
 /// symbolic integer explodes the symbolic execution and is not the subject of any property).
@@ -12,144 +10,75 @@ pub fn fmt_stub(_args: core::fmt::Arguments<'_>) -> String {
     String::new()
 }
 
-pub const GT: usize = 12;
-/// generator table: [0..6) for the first api_id family seen as "plain/blind main",
-/// [6..12) for the "BLIND_"-prefixed family
-pub static mut GEN_TABLE: [u16; GT] = [1; GT];
-/// P1 stand-in returned by the stub (the real `create` parses CS::P1)
-pub static mut GEN_CALLS: usize = 0;
-pub static mut GEN_LAST_COUNT: usize = 0;
-pub static mut GEN_TOTAL: usize = 0;
-/// largest count the stub will materialise; a larger request is a work-bound violation
-pub static mut GEN_BUDGET: usize = 6;
-
-pub const MT: usize = 8;
-/// message-scalar table: the k-th mapped message (over all calls, in call order) gets MSG_TABLE[k]
-pub static mut MSG_TABLE: [u16; MT] = [0; MT];
-pub static mut MSG_NEXT: usize = 0;
-pub static mut MSG_CALLS: usize = 0;
-
-pub const HT: usize = 6;
-/// hash_to_scalar answers by call order
-pub static mut H2S_TABLE: [u16; HT] = [0; HT];
-pub static mut H2S_NEXT: usize = 0;
-pub static mut H2S_MSG_LEN: [usize; HT] = [0; HT];
-pub static mut H2S_DST_LEN: [usize; HT] = [0; HT];
-
-pub fn reset_counters() {
-    unsafe {
-        GEN_CALLS = 0;
-        GEN_TOTAL = 0;
-        MSG_NEXT = 0;
-        MSG_CALLS = 0;
-        H2S_NEXT = 0;
-    }
-}
-
-/// true iff api_id starts with "BLIND_" (the blind-generator family)
-fn is_blind_family(api: &[u8]) -> bool {
-    api.len() >= 6
-        && api[0] == b'B'
-        && api[1] == b'L'
-        && api[2] == b'I'
-        && api[3] == b'N'
-        && api[4] == b'D'
-        && api[5] == b'_'
-}
-
 pub fn p1_of<CS: BbsCiphersuite>() -> G1Projective {
     G1Projective::from_compressed_hex(CS::P1).unwrap()
 }
 
-/// Stub for `Generators::create`: prefix-consistent table lookup, family chosen by the
-/// "BLIND_" prefix of api_id, `count + 1` overflow of the real loop header kept.
-pub fn gens_stub<CS>(count: usize, api_id: Option<&[u8]>) -> Generators
+/// Fixed generator table of the contract harnesses: generator i of the plain family is element
+/// 2 + 3*i, of the "BLIND_" family 101 + 5*i (distinct, non-identity, different from both P1 values
+/// 169 / 138 for i < 12).  A pure function: no global state.
+pub fn model_gen(i: usize, blind_family: bool) -> G1Projective {
+    if blind_family {
+        G1Projective(101 + 5 * i as u16)
+    } else {
+        G1Projective(2 + 3 * i as u16)
+    }
+}
+fn is_blind_family(api: &[u8]) -> bool {
+    api.len() >= 6 && api[0] == b'B' && api[1] == b'L' && api[2] == b'I' && api[3] == b'N' && api[4] == b'D' && api[5] == b'_'
+}
+/// Stub for `Generators::create` in contract harnesses (real creation is checked against the
+/// reference by the C10/C11 unit harnesses): prefix-consistent table, family chosen by the "BLIND_"
+/// prefix of api_id, the real loop header's `count + 1` overflow kept, request size capped (work bound).
+pub fn gens_pure<CS>(count: usize, api_id: Option<&[u8]>) -> zkryptium::bbsplus::generators::Generators
 where
     CS: BbsCiphersuite,
     CS::Expander: for<'a> ExpandMsg<'a>,
 {
     let _ = count.checked_add(1).expect("attempt to add with overflow");
-    let api = api_id.unwrap_or(&[]);
-    let off = if is_blind_family(api) { GT / 2 } else { 0 };
-    unsafe {
-        GEN_CALLS += 1;
-        GEN_LAST_COUNT = count;
-        assert!(count <= GEN_BUDGET, "WORK-BOUND: generator count exceeds budget");
-        GEN_TOTAL += count;
-    }
+    assert!(count <= GEN_REQUEST_CAP, "WORK-BOUND: generator request not bounded by the size of the input");
+    let blind = is_blind_family(api_id.unwrap_or(&[]));
     let mut values = Vec::new();
     let mut i = 0;
     while i < count {
-        values.push(G1Projective(unsafe { GEN_TABLE[off + i] }));
+        values.push(model_gen(i, blind));
         i += 1;
     }
-    Generators {
-        g1_base_point: p1_of::<CS>(),
-        values,
-    }
+    zkryptium::bbsplus::generators::Generators { g1_base_point: p1_of::<CS>(), values }
 }
-
-/// Stub for `BBSplusMessage::messages_to_scalar`: k-th mapped message gets MSG_TABLE[k].
-pub fn m2s_stub<CS: BbsCiphersuite>(
-    messages: &[Vec<u8>],
-    api_id: &[u8],
-) -> Result<Vec<BBSplusMessage>, Error>
-where
-    CS::Expander: for<'a> ExpandMsg<'a>,
-{
-    // the real function builds dst = api_id || MAP_MSG_SCALAR and fails if it exceeds 255
-    if api_id.len() + CS::MAP_MSG_SCALAR.len() > 255 && messages.len() > 0 {
-        return Err(Error::HashToScalarError);
-    }
-    let mut out = Vec::new();
+pub fn ref_gens(count: usize, blind: bool) -> Vec<G1Projective> {
+    let mut values = Vec::new();
     let mut i = 0;
-    unsafe {
-        MSG_CALLS += 1;
-    }
-    while i < messages.len() {
-        let k = unsafe { MSG_NEXT };
-        assert!(k < MT);
-        out.push(BBSplusMessage::new(Scalar(unsafe { MSG_TABLE[k] })));
-        unsafe {
-            MSG_NEXT = k + 1;
-        }
+    while i < count {
+        values.push(model_gen(i, blind));
         i += 1;
     }
-    Ok(out)
+    values
 }
 
-/// Stub for `BBSplusMessage::map_message_to_scalar_as_hash`.
-pub fn m2s1_stub<CS: BbsCiphersuite>(_data: &[u8], api_id: &[u8]) -> Result<BBSplusMessage, Error>
-where
-    CS::Expander: for<'a> ExpandMsg<'a>,
-{
-    if api_id.len() + CS::MAP_MSG_SCALAR.len() > 255 {
-        return Err(Error::HashToScalarError);
-    }
-    let k = unsafe { MSG_NEXT };
-    assert!(k < MT);
-    unsafe {
-        MSG_NEXT = k + 1;
-    }
-    Ok(BBSplusMessage::new(Scalar(unsafe { MSG_TABLE[k] })))
-}
+/// largest generator request any registered shape can legitimately make
+pub const GEN_REQUEST_CAP: usize = 10;
 
-/// Stub for `hash_to_scalar`: answers by call order; records lengths.
-pub fn h2s_stub<CS: BbsCiphersuite>(msg: &[u8], dst: &[u8]) -> Result<Scalar, Error>
+/// Stub for `prepare_parameters` used by the arithmetic harness of blind_proof_verify: checks that
+/// the requested generator counts are bounded (work bound) and refuses, so that only the caller's own
+/// arithmetic is executed.
+pub fn prepare_parameters_refuse<CS>(
+    _messages: Option<&[Vec<u8>]>,
+    _committed_messages: Option<&[Vec<u8>]>,
+    generators_number: usize,
+    blind_generators_number: usize,
+    _secret_prover_blind: Option<&zkryptium::bbsplus::commitment::BlindFactor>,
+    _api_id: Option<&[u8]>,
+) -> Result<(Vec<zkryptium::utils::message::bbsplus_message::BBSplusMessage>, zkryptium::bbsplus::generators::Generators), Error>
 where
+    CS: BbsCiphersuite,
     CS::Expander: for<'a> ExpandMsg<'a>,
 {
-    if dst.len() > 255 {
-        return Err(Error::HashToScalarError);
-    }
-    let k = unsafe { H2S_NEXT };
-    assert!(k < HT);
-    unsafe {
-        H2S_MSG_LEN[k] = msg.len();
-        H2S_DST_LEN[k] = dst.len();
-        H2S_NEXT = k + 1;
-    }
-    Ok(Scalar(unsafe { H2S_TABLE[k] }))
+    assert!(
+        generators_number <= GEN_REQUEST_CAP && blind_generators_number <= GEN_REQUEST_CAP,
+        "WORK-BOUND: generator request not bounded by the size of the input"
+    );
+    Err(Error::NotEnoughGenerators)
 }
 
 #[cfg(kani)]
@@ -169,34 +98,6 @@ pub mod sym {
         let v: u8 = kani::any();
         kani::assume(v != 0);
         Scalar(v as u16)
-    }
-    /// fill the generator table with symbolic non-identity elements
-    pub fn any_gen_table() {
-        let mut i = 0;
-        while i < GT {
-            unsafe {
-                GEN_TABLE[i] = any_elem();
-            }
-            i += 1;
-        }
-    }
-    pub fn any_msg_table() {
-        let mut i = 0;
-        while i < MT {
-            unsafe {
-                MSG_TABLE[i] = any_scalar().0;
-            }
-            i += 1;
-        }
-    }
-    pub fn any_h2s_table() {
-        let mut i = 0;
-        while i < HT {
-            unsafe {
-                H2S_TABLE[i] = any_scalar().0;
-            }
-            i += 1;
-        }
     }
     pub fn any_sk() -> BBSplusSecretKey {
         BBSplusSecretKey(any_nonzero_scalar())
